@@ -133,3 +133,32 @@ def pipeline_clause(mk, Flagger, Strategy, ui, qi, li, ii, bi):
     ulen = Strategy.__name__.count('u6') * 6 or 3
     umi, q = (pick(umis, ui) * 2)[:ulen], (pick(quals, qi) * 2)[:ulen]
     return roundtrip_clause(mk, Flagger, Strategy, umi, q, 'ACGTACGT', pick(libs, li), pick(idxs, ii), pick(BIS, bi))
+
+
+NAMES2 = [
+    # (read name as written by the demultiplexer, expected presence of UMI tags)
+    ('Is:NS500414;RN:455;Fc:HYLVHBGX5;La:3;Ti:13601;CX:9882;CY:17671;Fi:N;CN:0;aa:CGTACT;aA:CGTACT;aI:1;LY:LIBa;RX:ACGTTG;RQ:abcdef;bi:3;bc:ACGTACGT;MX:CS2C8U6;BC:ACGTACGT', True),
+    ('Is:NS500414;RN:455;Fc:HYLVHBGX5;La:3;Ti:13601;CX:9883;CY:17672;Fi:N;CN:0;aa:CGTACT;aA:CGTACT;aI:1;LY:LIBb;bi:9;bc:TTGACCAA;MX:SCARC8R1;BC:TTGACCAA', False),
+    ('Is:NS500414;RN:455;Fc:HYLVHBGX5;La:3;Ti:13601;CX:9884;CY:17673;Fi:N;CN:0;aa:CGTACT;aA:CGTACT;aI:1;LY:LIBc', False),   # bulk read: no cell index
+]
+
+
+def flagger_sequence_clause(mk, Flagger, order):
+    """one QueryNameFlagger instance decodes several reads in sequence: every read must decode exactly as it does alone"""
+    def tagsof(read):
+        return dict(read.get_tags()) if hasattr(read, 'get_tags') else dict(read.tags)
+    alone = []
+    for i in order:
+        r = mk(query_name=NAMES2[i][0], reference_name='chr1', reference_start=100, cigartuples=[(0, 8)], seq='CATGACGT', qual='IIIIIIII')
+        Flagger().digest([r])
+        alone.append((r.query_name, tagsof(r)))
+    fl = Flagger()
+    for k, i in enumerate(order):
+        r = mk(query_name=NAMES2[i][0], reference_name='chr1', reference_start=100, cigartuples=[(0, 8)], seq='CATGACGT', qual='IIIIIIII')
+        fl.digest([r])
+        if (r.query_name, tagsof(r)) != alone[k]:
+            return 'state_leaks_between_reads.pos%d' % k
+        t = tagsof(r)
+        if NAMES2[i][1] != ('RX' in t):
+            return 'umi_presence'
+    return None
